@@ -570,17 +570,25 @@ Proof. intros H. apply bmerge_total. apply (j_nodup _ _ _ (brun_inv b ops _ _ _ 
 
 (* ------------------------------------------------------------------ the property, the defect, the guard *)
 
-(* with anti_reflexive = false the provider is exactly the explicit transitive closure (law P2 with cl = tc) *)
+(* with anti_reflexive = false (the shipped value) the provider is exactly the explicit transitive closure
+   (law P2 with cl = tc) *)
 Theorem trrel_closure_flag_off ops st ins :
   brun false bempty [] ops = Some (st, ins) -> b_new st = [] ->
   forall x y, In (x, y) (reads st) <-> tc ins x y.
 Proof. intros H En x y. rewrite (brun_reads false ops st ins H En (x, y)). apply cl_false_tc. Qed.
 
-(* known class of C11 (finding F3): the missing tuple is (x,x), derivable (x lies on a cycle) and not inserted itself *)
+Theorem trrel_closure ops st ins :
+  brun shipped_arefl bempty [] ops = Some (st, ins) -> b_new st = [] ->
+  forall x y, In (x, y) (reads st) <-> tc ins x y.
+Proof. exact (trrel_closure_flag_off ops st ins). Qed.
+
+(* ---- the behaviour before commit 2cd049f (anti_reflexive created `true`), kept as statements about the model
+   with the flag parameter set to true.  Class of the lost tuples (former finding F3): the tuple is (x,x),
+   derivable (x lies on a cycle) and not inserted itself *)
 Definition known_c11 (ins : list pair) (p : pair) : bool := (fst p =? snd p) && negb (pmem p ins).
 
-Theorem trrel_shipped_guarded ops st ins :
-  brun shipped_arefl bempty [] ops = Some (st, ins) -> b_new st = [] ->
+Theorem trrel_flag_on_guarded ops st ins :
+  brun true bempty [] ops = Some (st, ins) -> b_new st = [] ->
   forall p, (In p (reads st) -> tc ins (fst p) (snd p)) /\
             (tc ins (fst p) (snd p) -> known_c11 ins p = false -> In p (reads st)).
 Proof.
@@ -592,8 +600,8 @@ Proof.
 Qed.
 
 (* exactly what is lost: the shipped provider misses p iff p is in the known class *)
-Theorem trrel_shipped_exact ops st ins :
-  brun shipped_arefl bempty [] ops = Some (st, ins) -> b_new st = [] ->
+Theorem trrel_flag_on_exact ops st ins :
+  brun true bempty [] ops = Some (st, ins) -> b_new st = [] ->
   forall p, tc ins (fst p) (snd p) -> (~ In p (reads st) <-> known_c11 ins p = true).
 Proof.
   intros H En p Htc. pose proof (brun_reads _ ops st ins H En p) as R. unfold known_c11. split.
@@ -606,12 +614,12 @@ Qed.
 
 Definition cycle_witness : list bop := [BIns 1 2; BIns 2 1; BMerge; BMerge].
 
-Theorem trrel_shipped_refuted :
-  exists ops st ins p, brun shipped_arefl bempty [] ops = Some (st, ins) /\ b_new st = [] /\
+Theorem trrel_flag_on_refuted :
+  exists ops st ins p, brun true bempty [] ops = Some (st, ins) /\ b_new st = [] /\
                        tc ins (fst p) (snd p) /\ ~ In p (reads st).
 Proof.
   exists cycle_witness.
-  destruct (brun shipped_arefl bempty [] cycle_witness) as [[st ins]|] eqn:E; [|vm_compute in E; discriminate].
+  destruct (brun true bempty [] cycle_witness) as [[st ins]|] eqn:E; [|vm_compute in E; discriminate].
   exists st, ins, (1, 1). vm_compute in E. inversion E; subst. cbn.
   repeat split.
   - eapply tc_step; [apply tc_one; left; reflexivity | right; left; reflexivity].
